@@ -6,7 +6,9 @@ From Model Require Export Base.
    with one value of every JSON/Python shape (see extract_tables.py) *)
 Inductive vkind :=
 | VStr | VUrl | VInt | VBool | VListStr | VJwk | VNone
-| VChoices (l : list string)
+| VChoices (l : list string)      (* in_choices(l): a member of l, or a list of members of l *)
+| VChoiceStr (l : list string)    (* in_choices(l, False): a single member of l (not a list) *)
+| VChoiceList (l : list string)   (* in_choices(l, True): a list of members of l *)
 | VUnknown (mask : N).
 
 Record hparam := { hp_name : string; hp_kind : vkind; hp_required : bool }.
